@@ -373,4 +373,50 @@ example : interRefTarget [] 0 ⟨false, false, 0⟩ = .error "inter-ref-zero" :=
 example : interRefTarget [] 0 ⟨true, false, 0⟩ = .error "inter-ref-self" := by rfl
 example : interRefTarget [] 0 ⟨false, false, 99⟩ = .error "inter-ref-bounds" := by rfl
 
+/-! ### Soundness, simplest shape -/
+
+/-- **A plain component is quiet** (parser part).  An ingredient or cookware item cut into no
+    modifier tokens, a body without quantity (`@name{}` or the single-word form), name tokens without
+    alias separator (or COMPONENT_ALIAS off) and a non-blank name: the parser returns the component
+    with empty modifiers, that name, no alias, no quantity, and pushes NO event at all (the queue,
+    the tables and the extensions of the final state are those of the initial state).
+    Partial: the analysis half (default modes push nothing for such a definition), timers, and the
+    extension to `{n%unit}` are not proved here. -/
+theorem C07_quiet_component_partial (s s1 s2 s3 s4 : BP α) (body : Body) (note : Option Text)
+    (hq : body.quantity = none)
+    (ha : s.ext.has Gen.EXT_COMPONENT_ALIAS = false ∨ ∀ t ∈ body.name, t.kind ≠ .or)
+    (hn : (buildText (curOff s2) body.name).isTextEmpty s.cs = false) (hnote : noteP s3 = (note, s4)) :
+    (Cut .at s [] body s1 s2 s3 →
+      (ingredientP s).1 = some (.ingredient
+        ⟨⟨⟨Modifiers.empty, Span.pos (curOff s1)⟩, none, buildText (curOff s2) body.name, none, none, note⟩,
+         ⟨curOff s, curOff s4⟩⟩) ∧ (ingredientP s).2.evs = s.evs) ∧
+    (Cut .hash s [] body s1 s2 s3 →
+      (cookwareP s).1 = some (.cookware
+        ⟨⟨⟨Modifiers.empty, Span.pos (curOff s1)⟩, buildText (curOff s2) body.name, none, none, note⟩,
+         ⟨curOff s, curOff s4⟩⟩) ∧ (cookwareP s).2.evs = s.evs) := by
+  constructor
+  · intro hc
+    have q4 : Same s s4 := hc.same.trans (noteP_same hnote)
+    have ht := ingredientTail_quiet (α := α) (curOff s) (curOff s4) (curOff s1) (curOff s2) body note s4 hq
+      (by rw [q4.2.1]; exact ha) (by rw [q4.1]; exact hn)
+    unfold Sat at ht
+    rw [← ingredientP_cut hc hnote] at ht
+    exact ⟨ht.2, (q4.trans ht.1).2.2⟩
+  · intro hc
+    have q4 : Same s s4 := hc.same.trans (noteP_same hnote)
+    have ht := cookwareTail_quiet (α := α) (curOff s) (curOff s4) (curOff s1) (curOff s2) body note s4 hq
+      (by rw [q4.2.1]; exact ha) (by rw [q4.1]; exact hn)
+    unfold Sat at ht
+    rw [← cookwareP_cut hc hnote] at ht
+    exact ⟨ht.2, (q4.trans ht.1).2.2⟩
+
+/-! non-vacuity: `@salt{}` with every extension off -/
+def C07_exSalt : BP Rat :=
+  ⟨[⟨.at, ['@'], 0⟩, ⟨.word, ['s', 'a', 'l', 't'], 1⟩, ⟨.openBrace, ['{'], 5⟩, ⟨.closeBrace, ['}'], 6⟩],
+   0, ⟨0⟩, toyCharSpec, #[], none⟩
+example : ∃ body note s1 s2 s3 s4, Cut .at C07_exSalt [] body s1 s2 s3 ∧ noteP s3 = (note, s4) ∧
+    body.quantity = none ∧ C07_exSalt.ext.has Gen.EXT_COMPONENT_ALIAS = false ∧
+    (buildText (curOff s2) body.name).isTextEmpty C07_exSalt.cs = false :=
+  ⟨_, _, _, _, _, _, ⟨⟨_, rfl⟩, rfl, rfl⟩, rfl, rfl, rfl, rfl⟩
+
 end Cook
